@@ -315,7 +315,8 @@ func runC22(c *core.Ctx) {
 	// who may call PutMerkleVal
 	cg := c.P.CG()
 	if pmvFn := c.Fn(pkNative, "NativeService.PutMerkleVal"); pmvFn != nil {
-		callers := cg.Callers(pmvFn)
+		callers := c.P.EffectiveCallers(pmvFn, func(y *ssa.Function) bool { return y == fn })
+		_ = cg
 		ok := len(callers) == 1 && callers[0] == fn
 		names := []string{}
 		for _, x := range callers {
